@@ -95,17 +95,20 @@ def specs(ctx):
             s.append((W, H, 5 if W * H <= 25 else 4))
         s += [(6, 6, 1), (6, 6, 2), (6, 6, 3), (6, 3, 5), (3, 6, 5)]
     else:
+        for W in range(1, 7):
+            for H in range(1, 7):
+                for k in range(1, 6):
+                    s.append((W, H, k))
         for W in range(1, 9):
             for H in range(1, 9):
-                for k in range(1, 5):
-                    s.append((W, H, k))
-        for W in range(1, 8):
-            for H in range(1, 8):
-                s.append((W, H, 5))
-        for W in range(1, 6):
-            for H in range(1, 6):
+                if W > 6 or H > 6:
+                    for k in range(1, 4):
+                        s.append((W, H, k))
+        for W in range(1, 5):
+            for H in range(1, 5):
                 s.append((W, H, 6))
-        s += [(6, 4, 6), (4, 6, 6), (8, 5, 5), (5, 8, 5), (8, 8, 5)]
+        s += [(7, 7, 4), (8, 8, 4), (8, 6, 4), (6, 8, 4), (7, 5, 4),
+              (5, 7, 4), (10, 10, 3), (12, 5, 3), (5, 12, 3)]
     return s
 
 
